@@ -139,6 +139,10 @@ func (os *ObjectStream) parseHeader() error {
 	headerData := os.decoded[:os.first]
 	parser := NewParser(bytes.NewReader(headerData))
 
+	// /N comes from the dictionary; every "number offset" pair needs at least four header bytes
+	if os.n > len(headerData)/4+1 {
+		return fmt.Errorf("/N (%d) does not fit in a header of %d bytes", os.n, len(headerData))
+	}
 	os.offsets = make([]objectStreamOffset, 0, os.n)
 
 	for i := 0; i < os.n; i++ {
@@ -201,10 +205,12 @@ func (os *ObjectStream) GetObjectByIndex(index int) (Object, int, error) {
 		endOffset = len(os.decoded)
 	}
 
-	if offset >= len(os.decoded) {
-		return nil, 0, fmt.Errorf("object offset %d exceeds decoded data length %d", offset, len(os.decoded))
+	// The offsets are numbers from the header: they must lie inside the data (a negative or
+	// overflowing one does not), and an end that is not behind the start means "to the end".
+	if offset < os.first || offset >= len(os.decoded) {
+		return nil, 0, fmt.Errorf("object offset %d outside the decoded data [%d, %d)", offset, os.first, len(os.decoded))
 	}
-	if endOffset > len(os.decoded) {
+	if endOffset > len(os.decoded) || endOffset < offset {
 		endOffset = len(os.decoded)
 	}
 
